@@ -3381,6 +3381,11 @@ class RoConstr:
 
         self.support = sup_model.do_math(primal=False, obj=False)
 
+        top = self.dec_model.top
+        if top is not None:
+            top.pupdate = True
+            top.dupdate = True
+
         return self
 
     def le_to_rc(self, support=None):
@@ -4912,6 +4917,8 @@ class DecLinConstr(LinConstr):
             raise ValueError('Models mismatch.')
 
         self.ambset = ambset
+        self.model.top.pupdate = True
+        self.model.top.dupdate = True
 
         return self
 
@@ -5000,13 +5007,16 @@ class DecRoConstr(RoConstr):
                 if constr.model is not self.rand_model:
                     raise ValueError('Models mismatch.')
             self.ambset = suppset
-            return self
         else:
             if self.dec_model.top is not ambset.model:
                 raise ValueError('Models mismatch.')
 
             self.ambset = ambset
-            return self
+
+        self.dec_model.top.pupdate = True
+        self.dec_model.top.dupdate = True
+
+        return self
 
 
 class DecLMIConstr(LMIConstr):
